@@ -56,3 +56,8 @@ Example C25_example :
     command_args ["cmd"] (rev (combine fs ex_values)) [] =
       ["cmd"; "3"; "--opt"; "xx"; "/out/o.png"; "-v"; "-y"; "1"; "p"; "-y"; "2"; "q"].
 Proof. repeat split; try reflexivity. eexists. repeat split; reflexivity. Qed.
+
+(* the boolean reading of "spells" that the driver evaluates on every observed field implies the Prop above *)
+Theorem C25_spellsb_sound : forall i t f, spellsb i t f = true -> spells i t f.
+Proof. exact spellsb_sound. Qed.
+Print Assumptions C25_spellsb_sound.
